@@ -10,6 +10,7 @@ import random
 import sys
 
 import anyio
+import sniffio
 from asphalt.core import (
     AsyncResourceError,
     Context,
@@ -91,6 +92,20 @@ def err_name(e: BaseException) -> str:
     return "Other:" + type(e).__name__
 
 
+async def settle():
+    """Return when every other task is blocked (exact quiescence)."""
+    if sniffio.current_async_library() == "trio":
+        import trio.testing
+        await trio.testing.wait_all_tasks_blocked()
+    else:
+        import asyncio
+        loop = asyncio.get_running_loop()
+        n = 0
+        while n < 2:
+            await asyncio.sleep(0)
+            n = n + 1 if len(loop._ready) == 0 else 0
+
+
 class H:
     """Harness-side handle of one context."""
 
@@ -116,6 +131,8 @@ class Env:
         self.tg, self.r = tg, rng
         self.hs: list[H] = []
         self.calls = {}              # (ctx, fid) -> n
+        self.fkeys = {}              # fid -> (first type, name) it was registered with
+        self.current_rec = None
         self.local = {}              # ctx -> next local counter
         self.current_ctx = None
         self.current_gate = None
@@ -133,6 +150,8 @@ class Env:
         k = self.local.get(c, 0)
         self.local[c] = k + 1
         self.calls[(c, fid)] = self.calls.get((c, fid), 0) + 1
+        if self.current_rec is not None:
+            self.current_rec["in_factory"] = True
         return GenObj(c, fid, k)
 
     def make_factory(self, fid, kind):
@@ -147,7 +166,6 @@ class Env:
             async def f():
                 obj = env.make_gen(fid)
                 gate = env.current_gate
-                env.progress.set()
                 await gate.wait()
                 return obj
         return f
@@ -236,6 +254,8 @@ class Env:
                 return {"k": "OK"}
             if k == "AddFactory":
                 f = self.make_factory(op["f"], op["kind"])
+                if op["types"]:
+                    self.fkeys[op["f"]] = (op["types"][0], op["name"])
                 kw = {}
                 if op["desc"] is not None:
                     kw["description"] = f"d{op['desc']}"
@@ -252,9 +272,9 @@ class Env:
                 return {"k": "NoneVal"} if v is None else {"k": "Val", "v": val_json(v)}
             if k == "GetBegin":
                 self.current_ctx = h.idx
-                rec = {"gate": anyio.Event(), "done": anyio.Event(), "result": None}
+                rec = {"gate": anyio.Event(), "done": anyio.Event(), "result": None, "in_factory": False}
                 self.current_gate = rec["gate"]
-                self.progress = anyio.Event()
+                self.current_rec = rec
                 h.pending[op["tok"]] = rec
 
                 async def lookup():
@@ -265,9 +285,9 @@ class Env:
                         rec["result"] = ("exc", e)
                     finally:
                         rec["done"].set()
-                        self.progress.set()
                 self.tg.start_soon(lookup)
-                await self.progress.wait()
+                await settle()
+                self.current_rec = None
                 if rec["done"].is_set():
                     del h.pending[op["tok"]]
                     return self.lookup_result(rec)
@@ -276,6 +296,7 @@ class Env:
                 rec = h.pending.pop(op["tok"])
                 rec["gate"].set()
                 await rec["done"].wait()
+                await settle()       # lookups that waited for this generation finish now
                 return self.lookup_result(rec)
             if k == "GetResources":
                 m = ctx.get_resources(ty_obj(op["t"]))
@@ -317,7 +338,8 @@ class Env:
                 m = h.ctx.get_resources(ty_obj(t))
                 maps.append([t, [[n, val_json(v)] for n, v in m.items()]])
             out.append({"closed": bool(h.ctx.closed), "maps": maps, "events": list(h.events),
-                        "calls": sorted([f, n] for (c, f), n in self.calls.items() if c == h.idx)})
+                        "calls": sorted([self.fkeys[f][0], self.fkeys[f][1], n]
+                                        for (c, f), n in self.calls.items() if c == h.idx)})
         return out
 
     # ---------- generation
@@ -377,7 +399,7 @@ class Env:
                 return {"op": "ExitEnd", "c": r.choice(cl).idx}
         if live and r.random() < 0.9:
             h = r.choice(live)
-        pend = [(x.idx, t) for x in hs for t in x.pending]
+        pend = self.completable()
         if pend and r.random() < 0.25:
             c, t = r.choice(pend)
             return {"op": "GetEnd", "c": c, "tok": t}
@@ -432,6 +454,12 @@ class Env:
             self.next_cb += 1
         return {"op": "AddTeardown", "c": h.idx, "cb": cb}
 
+    def completable(self):
+        """suspended lookups that can be completed now: those inside their factory, and those
+        that waited for another task's generation which has finished meanwhile"""
+        return [(x.idx, t) for x in self.hs for t, rec in x.pending.items()
+                if rec["in_factory"] or rec["done"].is_set()]
+
     def root_entered(self, h):
         while h.parent is not None:
             h = self.hs[h.parent]
@@ -474,7 +502,7 @@ async def run_case(case):
             else:
                 if i >= n:
                     # flush suspended lookups so that every task can finish
-                    pend = [(x.idx, t) for x in env.hs for t in x.pending]
+                    pend = env.completable()
                     if not pend:
                         break
                     op = {"op": "GetEnd", "c": pend[0][0], "tok": pend[0][1]}
